@@ -29,11 +29,13 @@ import coreprop
 import impl
 import lib
 import dispatchtie
+import c17_hints
 import universe
 
 COQ_TARGETS = ["theories/Props/C15.vo", "theories/Model/BuildTables.vo", "theories/Model/CoreTables.vo",
                "theories/Props/C05Bridge.vo", "theories/Model/GraphBridgeEq.vo"]
 COQ_TARGETS = COQ_TARGETS + [t for t in dispatchtie.COQ_TARGETS if t not in COQ_TARGETS]
+COQ_TARGETS = COQ_TARGETS + [t for t in c17_hints.COQ_TARGETS if t not in COQ_TARGETS]
 THEOREMS = ["C15_construction_total", "C15_passthrough", "C15_noop_only_at_passthrough", "C15_repeatable"]
 
 # leaves of the extended grammar that the model knows (tie + oracle)
@@ -274,6 +276,11 @@ def correspond(run: lib.Run):
     # which routine class each head gets (incl. the pass-through family: Any, object, TypeVar, Callable, type[...], bare
     # generics, classes without hints) is a theorem over the live _HANDLERS tables (dyn/Dispatch), no longer tie-only
     lib.run_tie(run, dispatchtie, streams=False, core=True, groups=groups, tag="c15")
+    # the class environments handed to the core model are what the code's own hint machinery yields (Model/InspectHints.v)
+    try:
+        c17_hints.hints_obligations(run, groups, "c15")
+    except Exception as ex:
+        run.oblige("tie:c17_hints.hints_obligations ran to completion", False, repr(ex)[:400])
 
 
 # ----------------------------------------------------------------------------------
